@@ -139,6 +139,16 @@ def scopeEq (a b : Scope) : Bool :=
       x.counters == y.counters
   fe a.var b.var && fe a.node b.node
 
+/-- run-time confirmation of what is not proved: every value the rendered graph defines has a name
+    issued by the var namespace (a Var's name or a reserved internal), every non-empty node name one
+    issued by the node namespace or `<node name>_id<i>` of an `_Introduce` -/
+def namesInScope (ng : NGraph) (sc : Scope) : Bool :=
+  let vnames := (allPairs sc.var.frames).map (·.2) ++ allReserved sc.var.frames
+  let nnames := (allPairs sc.node.frames).map (·.2) ++ allReserved sc.node.frames
+  let ds := defsG ng
+  (valueNames ds).all (fun v => vnames.contains v) &&
+  (nodeNames ds).all (fun n => nnames.contains n || nnames.any (fun m => n.startsWith (m ++ "_id")))
+
 def handle (req : Json) : Json :=
   match (do
     let k ← req.getObjValAs? String "k"
@@ -158,7 +168,8 @@ def handle (req : Json) : Json :=
           | .ok sc => scopeEq sc st.sc
           | .error _ => false
         return Json.mkObj [("graph", ngraphJson ng), ("trace_ok", replayOk),
-          ("accept", checkStructural ng), ("trace_len", st.trace.length)]
+          ("accept", checkStructural ng), ("trace_len", st.trace.length),
+          ("names_in_scope", namesInScope ng st.sc)]
     | _ => throw "bad request kind") with
   | .ok j => j
   | .error e => Json.mkObj [("error", e)]
